@@ -17,6 +17,7 @@
  *   dup F tag ref otag oref | del F tag ref | lbw F tag ref n (pos hex).. (rewrite/extend an existing element)
  *   vgdel F slot which delobj | dfsd F nt rank d.. 3 strings (3 strings per dim).. hex | sdselect i | sddimname j namehex |
  *   sddimattr j namehex nt cnt hex | sdann F idx type hex | grlut seed | grattr scope namehex nt cnt hex | dfpal F seed | defonly F tag ref |
+ *   reserve F tag ref len hex | vgaddx F slot kind a b | vg .. x (second attach while changes are pending) | hclose F 1 (no PRE dump)
  *   chunkw F tag ref nd n (o.. hex).. | compw F tag ref hex   (rewrites: compressed data that grows becomes linked blocks)
  *   vs F slot il blk nf (namehex type order).. nrec hex | vsapp F slot nrec hex | vsattr F slot findex namehex nt cnt hex
  *   vg F slot namehex classhex nm (kind a b).. | vgattr F slot namehex nt cnt hex
@@ -519,9 +520,10 @@ static void run_op(long ln)
         }
     }
     else if (!strcmp(op, "hclose")) {
-        int F = argl();
+        int F = argl(); int nopre = argl();   /* hclose F [1]: 1 = do not read the elements back before closing
+                                                 (a read of reserved space makes the library extend the file) */
         if (!F_OPEN(F)) ok = 0;
-        else { dump_elems(fid[F], F, "PRE"); dump_v(fid[F], F, "PREVH", "PREVG", 0); dump_mem(F); Vend(fid[F]); ok = Hclose(fid[F]) != FAIL; fid[F] = FAIL; if (!ok) notclosed[F] = 1; }
+        else { if (!nopre) { dump_elems(fid[F], F, "PRE"); dump_v(fid[F], F, "PREVH", "PREVG", 0); } else printf("%s F%d NOPRE\n", hist, F); dump_mem(F); Vend(fid[F]); ok = Hclose(fid[F]) != FAIL; fid[F] = FAIL; if (!ok) notclosed[F] = 1; }
     }
     else if (!strcmp(op, "snap")) {
         int F = argl(), G = argl();
@@ -678,6 +680,28 @@ static void run_op(long ln)
         ok = aid != FAIL && Hwrite(aid, n, databuf) == n;
         if (aid != FAIL) ok = (Hendaccess(aid) != FAIL) && ok;
     }
+    else if (!strcmp(op, "reserve")) {  /* space reserved up front, written only in part: reserve F tag ref len hex */
+        int F = argl(), tag = argl(), ref = argl(), len = argl(); int n = unhex(args(), databuf);
+        int32 aid = F_OPEN(F) ? Hstartwrite(fid[F], tag, ref, len) : FAIL;
+        ok = aid != FAIL && (n == 0 || Hwrite(aid, n, databuf) == n);
+        if (aid != FAIL) ok = (Hendaccess(aid) != FAIL) && ok;
+    }
+    else if (!strcmp(op, "vgaddx")) {   /* vgaddx F slot kind a b: add a member to an existing vgroup; while the change is
+                                           pending the vgroup is attached a second time (as a helper that lists members does) */
+        int F = argl(), slot = argl(), kind = argl(), a = argl(), b = argl();
+        int32 vg = F_OPEN(F) && vgref[F][slot] > 0 ? Vattach(fid[F], vgref[F][slot], "w") : FAIL;
+        ok = vg != FAIL;
+        if (ok) {
+            if (kind == 0) ok = vsref[F][a] > 0 && Vaddtagref(vg, DFTAG_VH, vsref[F][a]) != FAIL;
+            else if (kind == 3) { char nm[64]; snprintf(nm, sizeof nm, "renamed%d", a); ok = Vsetname(vg, nm) != FAIL; }
+            else ok = Vaddtagref(vg, a, b) != FAIL;
+        }
+        if (ok) {
+            int32 again = Vattach(fid[F], vgref[F][slot], b % 2 ? "w" : "r");
+            if (again != FAIL) { (void)Vntagrefs(again); Vdetach(again); }
+        }
+        if (vg != FAIL) ok = (Vdetach(vg) != FAIL) && ok;
+    }
     else if (!strcmp(op, "defonly")) {  /* an element that is defined but never gets data: defonly F tag ref */
         int F = argl(), tag = argl(), ref = argl();
         int32 aid = F_OPEN(F) ? Hstartaccess(fid[F], tag, ref, DFACC_WRITE) : FAIL;
@@ -794,6 +818,10 @@ static void run_op(long ln)
             if (kind == 0) ok = vsref[F][a] > 0 && Vaddtagref(vg, DFTAG_VH, vsref[F][a]) != FAIL;
             else if (kind == 1) ok = vgref[F][a] > 0 && Vaddtagref(vg, DFTAG_VG, vgref[F][a]) != FAIL;
             else ok = Vaddtagref(vg, a, b) != FAIL;
+        }
+        if (vg != FAIL && tp < ntok && !strcmp(toks[tp], "x")) {   /* attached once more while its record is still unwritten */
+            int32 again = Vattach(fid[F], VQueryref(vg), "r");
+            if (again != FAIL) { (void)Vntagrefs(again); Vdetach(again); }
         }
         if (vg != FAIL) { if (slot >= 0 && slot < NSLOT) vgref[F][slot] = VQueryref(vg); v1 = VQueryref(vg); have_v = 1; ok = (Vdetach(vg) != FAIL) && ok; }
     }
